@@ -31,6 +31,7 @@ type Xlat struct {
 	loopHdrCount map[string]int
 
 	qn int
+	nn bool // view C01: non-nil discipline of the graph structure (assumption A11)
 	lock *lockCtx
 	lockHavocOK bool
 	view string // property view: clauses tagged for other properties are dropped
